@@ -217,6 +217,57 @@ example : ∃ g' d, witnessGraph.insertDecl ⟨0, 3⟩ (.fn 7) none = .ok g' ∧
   exact no_interference_outer witnessGraph _ witness_inv.wf witness_inv.iok 5 [5, 1] [0]
     witness_chain 3 _ (by decide) ⟨0, 3⟩ (.fn 7) none rfl (by decide)
 
+/-- **T3 for imports.** An import made in scope `b` — at module level or in any
+    block — changes what a name means in scope `s` only if `b` is on the lookup
+    path of `s` (i.e. `s` is `b` or nested in it) and the name is the imported
+    alias: imports of other blocks, of nested blocks and of other modules never
+    interfere. -/
+theorem no_interference_import (g g' : Graph) (wf : WF g) (s : Nat) (chain : List Nat)
+    (hc : Ancestors g s chain) (x : Name) (b : Nat) (tgt : RName)
+    (h : g.insertImport b tgt = .ok g') (off : b ∉ chain ∨ x ≠ tgt.ident) :
+    g'.resolve s x true = g.resolve s x true := by
+  have e := ext_insertImport h
+  have wf' : WF g' := by
+    intro i sc hs p hp
+    by_cases hlt : i < g.scopes.length
+    · obtain ⟨sc', h1, _, h3⟩ := e.scopes i _ (List.getElem?_eq_getElem hlt)
+      rw [hs] at h1; cases h1
+      exact wf i _ (List.getElem?_eq_getElem hlt) p (by rw [← h3]; exact hp)
+    · exfalso
+      have hl : g'.scopes.length = g.scopes.length := by
+        unfold Graph.insertImport at h
+        cases hb : g.scopes[b]? with
+        | none => rw [hb] at h; cases h
+        | some sc0 =>
+          rw [hb] at h
+          simp only at h
+          cases hl : sc0.imports.lookup tgt.ident with
+          | some _ => rw [hl] at h; cases h
+          | none => rw [hl] at h; cases h; simp
+      have := getElem?_lt hs
+      omega
+  have hc' : Ancestors g' s chain := by
+    clear off
+    induction hc with
+    | root hs hp =>
+      obtain ⟨sc', h1, _, h3⟩ := e.scopes _ _ hs
+      exact .root h1 (by rw [h3]; exact hp)
+    | step hs hp _ ih =>
+      obtain ⟨sc', h1, _, h3⟩ := e.scopes _ _ hs
+      exact .step h1 (by rw [h3]; exact hp) ih
+  rw [show g'.resolve s x true = firstHit g' x chain from
+        resolveName_eq_firstHit wf' x (s + 1) s chain (Nat.lt_succ_self s) hc',
+      show g.resolve s x true = firstHit g x chain from
+        resolveName_eq_firstHit wf x (s + 1) s chain (Nat.lt_succ_self s) hc]
+  exact firstHit_insertImport h x chain off
+
+-- importing `ff` into the scope of `pkg.bb.aa` (4) does not change `ff` in the function of `pkg` (5)
+example : ∃ g', witnessGraph.insertImport 4 ⟨2, 6⟩ = .ok g' ∧
+    g'.resolve 5 6 true = witnessGraph.resolve 5 6 true := by
+  refine ⟨_, rfl, ?_⟩
+  exact no_interference_import witnessGraph _ witness_inv.wf 5 _ witness_chain 6 4 ⟨2, 6⟩ rfl
+    (Or.inl (by decide))
+
 /-- **T3 for whole paths.** A new item does not change what a path means unless
     it is declared in a scope on the lookup path of the first segment or in one
     of the scopes the later segments are looked up in (`memberScopes`). -/
